@@ -233,3 +233,20 @@ func nonNull(res ref.Result) bool {
 func isErr(res ref.Result) bool {
 	return len(res.Outcomes) > 0 && res.Outcomes[0].Err != ""
 }
+
+// edgeNumberStrings: decimal texts on and around the edges of the machine number formats (int64, uint64, the 2^53 window,
+// the largest and smallest float64, long mantissas, long runs of zeros): a hand-written number scanner, an integer fast path or
+// a scaled-mantissa shortcut goes wrong on one side of one of these.
+var edgeNumberStrings = func() []string {
+	out := []string{"9223372036854775806", "9223372036854775807", "9223372036854775808", "9223372036854775809", "-9223372036854775807", "-9223372036854775808", "-9223372036854775809", "9300000000000000000", "-9300000000000000000",
+		"9999999999999999999", "10000000000000000000", "18446744073709551615", "18446744073709551616", "18446744073709551617", "99999999999999999999", "100000000000000000000", "123456789012345678901234567890", "999999999999999999", "1000000000000000000",
+		"9007199254740991", "9007199254740992", "9007199254740993", "9007199254740995", "-9007199254740993", "4294967295", "4294967296", "2147483647", "2147483648", "-2147483649", "16777217", "999999999999999", "9999999999999999", "99999999999999999",
+		"1e308", "1.7976931348623157e308", "1.7976931348623158e308", "1.7976931348623159e308", "1.797693134862315807e308", "1.797693134862315808e308", "1.8e308", "2e308", "18e307", "0.18e309", "179769313486231570e291", "9e308", "1e309", "-1.8e308", "-2e308", "1e310", "1e400", "-1e400", "1e4000", "1e99999",
+		"17976931348623157e292", "179769313486231580793728971405303415079934132710037826936173778980444968292764750946649017977587207096330286416692887910946555547851940402630657488671505820681908902000708383676273854845817711531764475730270069855571366959622842914819860834936475292719074168444365510704342711559699508093042880177904174497791",
+		"179769313486231580793728971405303415079934132710037826936173778980444968292764750946649017977587207096330286416692887910946555547851940402630657488671505820681908902000708383676273854845817711531764475730270069855571366959622842914819860834936475292719074168444365510704342711559699508093042880177904174497792",
+		"5e-324", "4.9e-324", "2.5e-324", "2.4e-324", "2e-324", "1e-323", "1e-324", "1e-400", "-1e-400", "2.2250738585072014e-308", "2.2250738585072011e-308", "1e-999", "0e999", "0e-999", "-0e0", "0.0e309", "0." + strings.Repeat("0", 330) + "1", "0." + strings.Repeat("0", 320) + "1e320",
+		"1" + strings.Repeat("0", 308), "1" + strings.Repeat("0", 309), "1" + strings.Repeat("0", 400) + "e-400", "0." + strings.Repeat("9", 40), "1." + strings.Repeat("0", 40) + "1", "123456789012345678", "1234567890123456789", "12345678901234567890", "0.1234567890123456789", "1.0000000000000002", "1.00000000000000011102230246251565404236316680908203125",
+		"1.00000000000000011102230246251565404236316680908203124", "1.00000000000000011102230246251565404236316680908203126", "9007199254740993.0", "9007199254740992.5", "9007199254740993e0", "900719925474099.3e1", "1e22", "1e23", "8.5e22", "1e15", "1e16", "1e-5", "1e-7", "123e-20", "1.5e+300", "15e299",
+		"1e+0308", "1e0000000000000000000000308", "1e00000000000000000000000309", "1E+308", "1E309", "1e-0000324", "2e-00000000000324", "1e18446744073709551616", "1e-18446744073709551616", "1e9223372036854775807", "0e18446744073709551616"}
+	return out
+}()
